@@ -239,24 +239,30 @@ int main(int argc, char* const* argv)
         ca.l.erase(ca.l.begin(), ca.l.begin() + 1);
     }
 
-    if (ca.m.count('P')) {
-        if (!instance.parse_pretend_valid_expr(ca.m['P'].c_str())) {
-            return 1;
-        }
-    }
-
     CScript script;
-    if (script_str) {
-        if (instance.parse_script(script_str)) {
-            if (verbose) btc_logf("valid script\n");
-        } else {
-            fprintf(stderr, "invalid script\n");
-            return 1;
+    try {
+        if (ca.m.count('P')) {
+            if (!instance.parse_pretend_valid_expr(ca.m['P'].c_str())) {
+                return 1;
+            }
         }
-        free(script_str);
-    }
 
-    instance.parse_stack_args(ca.l);
+        if (script_str) {
+            if (instance.parse_script(script_str)) {
+                if (verbose) btc_logf("valid script\n");
+            } else {
+                fprintf(stderr, "invalid script\n");
+                return 1;
+            }
+            free(script_str);
+        }
+
+        instance.parse_stack_args(ca.l);
+    } catch (std::exception const& ex) {
+        // e.g. int(<more than 4 bytes>) inside a script or stack argument
+        fprintf(stderr, "error parsing script or stack arguments: %s\n", ex.what());
+        return 1;
+    }
 
     if (instance.txin && instance.tx && ca.l.size() == 0 && instance.script.size() == 0) {
         if (!instance.configure_tx_txin()) return 1;
